@@ -78,7 +78,9 @@ func checkC14(c *Ctx) {
 		}
 	}()
 
+	c14PemWalk(c)
 	c.Decided = append(c.Decided,
+		"G-C14-pemwalk: getCert, getKey and X509KeyPair call pem.Decode on a loop fed with the remainder of the previous call (every block of the input is looked at)",
 		"T-CODEC: each writer/reader pair uses inverse encodings of the same layout: hex private key (fixed 32 bytes, hex.EncodeToString/DecodeString), hex public key (04||X||Y, 32-byte coordinates, offsets 0/32), PEM block types, PKCS#8 (SM2 algorithm OID written and required; d < n; public key recomputed as [d]G), PBES2 parameters (PBKDF2-SHA1, 32-byte key, AES-256-CBC written; the reader derives the key the same way for that PRF OID), compressed point (parity byte || 32-byte X), ASN.1 signature (same structure type)",
 		"G-C14-pw: a PKCS#8 blob that does not parse after decryption is an error (wrong password)",
 		"B-PRE-nil: every elliptic.Unmarshal result is checked for nil before use",
